@@ -4,7 +4,7 @@
    (before / at / after each expiry).  Each case carries the Spec's verdicts;
    the case set is also the state space, and the property clauses are checked
    as invariants over it. *)
-EXTENDS GridManager, Json, IOUtils, SequencesExt
+EXTENDS GridManager, Json, IOUtils, SequencesExt, FiniteSetsExt
 
 CONSTANTS Signers,       \* all grid-manager keys that exist
           Configurable,  \* those a client may have configured
@@ -13,7 +13,7 @@ CONSTANTS Signers,       \* all grid-manager keys that exist
 Self == "self"
 Tampers == {"none", "cert", "sig"}
 Certs == [signer : Signers, subject : Subjects, expires : Expiries, tamper : Tampers]
-CertSets == {cs \in SUBSET Certs : Cardinality(cs) <= MaxCerts}
+CertSets == UNION {kSubset(k, Certs) : k \in 0..MaxCerts}
 NowSeq == SetToSortSeq(Nows, <)
 SignerSeq == SetToSeq(Signers)
 
@@ -24,7 +24,7 @@ Case(keys, cs) ==
    sigok |-> [i \in 1..Len(cseq) |-> [j \in 1..Len(SignerSeq) |-> SigOK(SignerSeq[j], cseq[i])]],
    signers |-> SignerSeq,
    nows |-> NowSeq,
-   verdicts |-> [i \in 1..Len(NowSeq) |-> Verdict(keys, cs, Self, NowSeq[i])]]
+   verdicts |-> [i \in 1..Len(NowSeq) |-> GMVerdict(keys, cs, Self, NowSeq[i])]]
 
 Cases == {Case(keys, cs) : keys \in SUBSET Configurable, cs \in CertSets}
 
@@ -43,7 +43,7 @@ C33_Exact == \A now \in Nows : Permitted(keys, cs, Self, now) <=> (keys = {} \/ 
 \* tampered, expired, wrong-key and other-server certificates never grant anything: dropping them changes nothing
 C33_BadCertsIrrelevant ==
   \A now \in Nows : Permitted(keys, cs, Self, now) = Permitted(keys, {c \in cs : Good(c, now)}, Self, now)
-C33_NoKeysPermitsAll == keys = {} => \A now \in Nows : Verdict(keys, cs, Self, now) = "permit"
+C33_NoKeysPermitsAll == keys = {} => \A now \in Nows : GMVerdict(keys, cs, Self, now) = "permit"
 \* permission only ever ends with time, and more certificates never revoke
 C33_ExpiryMonotone == \A n1, n2 \in Nows : (n1 <= n2 /\ Permitted(keys, cs, Self, n2)) => Permitted(keys, cs, Self, n1)
 C33_MoreCertsNeverRevoke == \A c \in cs : \A now \in Nows : Permitted(keys, cs \ {c}, Self, now) => Permitted(keys, cs, Self, now)
